@@ -44,4 +44,14 @@ Theorem no_seed_keeps_dependence tr :
 Proof.
   intros Hinj H g g' Hne. rewrite !stream_position by exact H. intro C. apply Hne. eapply Hinj; eauto.
 Qed.
+(** (5) RESUME. The checkpoint of a seeded run records the generator as it stands (after k1 variates); a resumed run that restores
+    it and draws k2 more is where the uninterrupted run is after k1 + k2 ... *)
+Theorem restore_continues s k1 k2 g0 :
+  advance (exec [SeedUser s; Draw k1] g0) k2 = exec [SeedUser s; Draw (k1 + k2)] g0.
+Proof. cbn. apply advance_add. Qed.
+(** ... whereas seeding with the run's seed again on load (the pinned rule) puts the resumed run where a FRESH run is after k2
+    variates: it consumes the innovations of the first iterations a second time *)
+Theorem reseed_on_resume_replays s k1 k2 g0 :
+  exec [SeedUser s; Draw k1; SeedUser s; Draw k2] g0 = exec [SeedUser s; Draw k2] g0.
+Proof. reflexivity. Qed.
 End P.
